@@ -187,5 +187,17 @@ def replay(cs, scenario, graph, rec, modes=DEFAULT_MODES, foreign=True, max_stat
                             pyref.draw_for(a["prob"], luck, 0))
     for e in eids:
         rec.reset(e)
+    if foreign and len(order) > 1:
+        # final pass: the environments sit in the INITIAL state of a fresh episode while generative_step is given
+        # the deepest stored states of earlier episodes (an implementation that keeps episode bookkeeping outside
+        # the state object answers for the wrong state)
+        for s2 in order[-min(8, len(order) - 1):]:
+            obj = kept[s2]
+            rec.goal(eids[0], obj)
+            for (pre, k, luck, post, gate) in out[s2]:
+                a = pyref.flat_action(cs, k)
+                counter += 1
+                rec.genstep(eids[0], obj, spec_for(cs, params, k, modes[0][1], counter),
+                            pyref.draw_for(a["prob"], luck, 0))
     return dict(states=len(order), edges=n_edges, tree_steps=tree_steps,
                 gates=collections.Counter((pyref.flat_action(cs, e[1])["kind"], e[4], e[2]) for e in edges))
